@@ -1435,6 +1435,9 @@ class Terms:
         if k == "use":
             return self.operand(rv["op"], bb, idx, depth)
         if k in ("ref", "copyforderef", "rawptr"):
+            if getattr(self, "indexed", False) and any(e["k"] in ("index", "cindex", "subslice") for e in rv["place"]["p"]):
+                # a reference to an element / sub-slice (`[a, b, rest @ ..]` patterns bind by reference): the element itself
+                return self.operand({"k": "copy", "place": rv["place"]}, bb, idx, depth)
             l, p = norm_place(rv["place"])
             return self.place(l, p, bb, idx, depth)
         if k == "cast":
